@@ -346,7 +346,7 @@ func runShape(s shape, addr string, setShape func(shape), rep *lib.Report) {
 	setShape(s)
 	raw := []byte("GET /shape HTTP/1.1\r\nHost: x\r\nConnection: close\r\n\r\n")
 	what := func() map[string]any {
-		return map[string]any{"engine": "enum", "part": "c07", "mode": "shape", "shape": s.String(), "verbose": verboseRun}
+		return map[string]any{"engine": "enum", "part": "c07", "mode": "shape", "shape": s.String(), "verbose": verboseRun, "half_close": lib.HalfCloseAfterRequest}
 	}
 	var resp []byte
 	var hung bool
@@ -441,6 +441,13 @@ func shapeServer() (*lib.Server, func(shape)) {
 	h := http.HandlerFunc(func(w http.ResponseWriter, r *http.Request) {
 		attempt++
 		if cur.retry && attempt == 1 {
+			if lib.HalfCloseAfterRequest {
+				// give the server's connection reader time to notice that the client has finished sending
+				select {
+				case <-r.Context().Done():
+				case <-time.After(2 * time.Second):
+				}
+			}
 			w.Header().Set("X-Discarded", "leak")
 			w.Header().Add("X-Dup", "discarded")
 			w.WriteHeader(502)
@@ -492,7 +499,7 @@ func RunC07(tier string, sh lib.Shard, rep *lib.Report) {
 	rep.Bounds["response_shapes"] = len(shs)
 	rep.Rule = "(a) every generated retry expression (all 61 atoms; covering selection of 1- and 2-connective compounds, with/without parentheses; plus 'no retry option') x method {GET,POST; and get,Post,PATCH for programs that read the method} x 31 per-attempt status sequences, run on the real buffer (one long-lived instance per expression serving all its exchanges in sequence) and compared with a reference evaluator (expected invocations = min(11, first attempt whose predicate is false)) and with the final attempt's marker; (b) every response shape status x header set x body chunking, with and without a discarded first attempt, through a real loopback server and a raw TCP client that must read exactly one well-formed response; non-trivial = programs that retried + shapes after a discarded attempt"
 	rep.Assume("an attempt without explicit status may be read as code 0 or 200 by the retry expression (either count accepted)")
-	rep.Require("programs_that_retried", "programs_hitting_the_cap", "shapes_after_a_discarded_attempt", "shapes_with_implicit_status", "shapes_with_empty_body")
+	rep.Require("programs_that_retried", "programs_hitting_the_cap", "shapes_after_a_discarded_attempt", "shapes_with_implicit_status", "shapes_with_empty_body", "shapes_for_a_half_closed_client")
 	all := append([]*expr{nil}, progs...)
 	for i, p := range all {
 		if !sh.Mine(i) {
@@ -516,6 +523,20 @@ func RunC07(tier string, sh lib.Shard, rep *lib.Report) {
 		if p != nil {
 			rep.Sample(3, p.String())
 		}
+	}
+	// a client that half-closes its connection after sending the request (it is still reading!): every shape that
+	// comes after a discarded attempt once more
+	{
+		lib.HalfCloseAfterRequest = true
+		srv, set := shapeServer()
+		for i, s := range shs {
+			if sh.Mine(i) && s.retry {
+				runShape(s, srv.Addr, set, rep)
+				rep.Count("shapes_for_a_half_closed_client")
+			}
+		}
+		srv.Close()
+		lib.HalfCloseAfterRequest = false
 	}
 	for _, verbose := range []bool{false, true} {
 		verboseRun = verbose
@@ -546,6 +567,8 @@ func ReplayC07(rp map[string]any) (bool, string) {
 	rep := lib.NewReport("C07", "replay")
 	verboseRun = rp["verbose"] == true
 	if rp["mode"] == "shape" {
+		lib.HalfCloseAfterRequest = rp["half_close"] == true
+		defer func() { lib.HalfCloseAfterRequest = false }()
 		srv, set := shapeServer()
 		defer srv.Close()
 		for _, s := range shapes() {
